@@ -115,6 +115,12 @@ var statedCases = []statedCase{
 		what: "a URL with two Path directives and a method with its own Path between them vs the same URL without that method: same verdict",
 		a:    one("JSIGHT 0.3\nURL /a/{x}/{y}/{z}\n(\n  Path\n  {\"x\": 1}\n  GET\n  (\n    Path\n    {\"y\": 2}\n    200 any\n  )\n  Path\n  {\"z\": 3}\n  POST\n    200 any\n)\n"),
 		b:    one("JSIGHT 0.3\nURL /a/{x}/{y}/{z}\n(\n  Path\n  {\"x\": 1}\n  Path\n  {\"z\": 3}\n  POST\n    200 any\n)\n")},
+	{id: "request-unknown-type-message", prop: "C02", kind: "cleanmsg",
+		what: "the diagnostic of an unknown type in a Request is the message alone (as for a response), not the schema library's rendering with \"in line 1 on file\"",
+		a:    one("JSIGHT 0.3\n\nPOST /a\n  Request @unknown\n  200 any\n")},
+	{id: "failed-paste-message-chain", prop: "C02", kind: "cleanmsg",
+		what: "the message of a failed PASTE in an included file is the message alone: the include chain belongs to the trace, once",
+		a:    map[string]string{"root.jst": "JSIGHT 0.3\n\nINCLUDE a.jst\n", "a.jst": "GET /a\n  200 any\n  PASTE @nope\n"}},
 	{id: "include-inside-parentheses", prop: "C08", kind: "same",
 		what: "the children of a parenthesised URL written in place vs moved into an included file",
 		a:    map[string]string{"root.jst": "JSIGHT 0.3\nURL /a\n(\n  INCLUDE inc.jst\n)\n", "inc.jst": "  GET\n    200 any\n"},
@@ -183,6 +189,12 @@ func runStatedCases(ctx *Ctx) {
 							msg = fmt.Sprintf("the document is accepted and its catalog does not hold %s", nd)
 						}
 					}
+				}
+			case c.kind == "cleanmsg":
+				if ra.Err == nil {
+					msg = "the document is accepted"
+				} else if strings.ContainsAny(ra.Err.Msg, "\n\t") {
+					msg = fmt.Sprintf("the message spans several lines: %q", ra.Err.Msg)
 				}
 			case c.kind == "same":
 				rb := RunProject(conv(c.b), false)
